@@ -5,7 +5,7 @@ LEVEL = "proof"
 USES_LABELS = True
 RULE = ("triples (registration, server login start, client login finish) over {absent,'',1,255,256,65535,65536 bytes, explicit "
         "public key} for context / client identity / server identity; boundary-shifted splits of one concatenation across the "
-        "three fields; pairs of credential identifiers (equal, prefix, empty, long). Oracle: accepted iff effectively equal; "
+        "three fields; pairs of credential identifiers (equal, prefix, empty, long, a long one against its digests and block-size truncations). Oracle: accepted iff effectively equal; "
         "over-long inputs refused. distinct = distinct (suite, parameters)")
 ASSUMPTIONS = ["binding theorem holds up to explicit collision events (Bad); injectivity lemmas are unconditional"]
 
@@ -99,6 +99,13 @@ def cases(tier, seed):
                             params=dict(reg=reg, srv=srv, cli=cli, cred_reg=b"user", cred_login=b"user")))
         creds = [(b"", b""), (b"", b"a"), (b"a", b""), (b"alice", b"alic"), (b"alic", b"alice"), (b"x" * 300, b"x" * 299 + b"y"),
                  (b"x" * 70000, b"x" * 70000), (b"a\x00", b"a")]
+        # identifiers a digesting / truncating derivation would confuse (no prefix relation): a long one and its digests
+        import hashlib
+        longc = b"credential-identifier/" * 10
+        for hn in ("sha256", "sha384", "sha512"):
+            d = hashlib.new(hn, longc).digest()
+            creds += [(longc, d), (d, longc)]
+        creds += [(longc, longc[:64]), (longc, longc[:128]), (longc[:128], longc)]
         for i, (c1, c2) in enumerate(creds):
             out.append(dict(cross=["login_finish", "srv_login_finish", "srv_reg_start"], cross_limit=60, script=triple, suite=s, seed=seed * 100000 + si * 1000 + 500 + i, mode="pattern",
                             params=dict(reg=(None, None), srv=(None, None, None), cli=(None, None, None), cred_reg=c1, cred_login=c2)))
